@@ -37,6 +37,10 @@ func genC07(seed uint64, tier string) *Case {
 	nr := 3 + g.Intn(12)
 	for i := 0; i < nr; i++ {
 		c.Steps = append(c.Steps, Step{Op: "re", I: g.Intn(nrt), J: g.Intn(nq), S: []string{"ack", "resp", "resp", "ack", "wrongid", "wrongtime"}[g.Intn(6)], T: from[g.Intn(len(from))], K: g.Intn(3)})
+		if g.Bool(0.08) {
+			// the application closes the query itself before the deadline
+			c.Steps = append(c.Steps, Step{Op: "close", J: g.Intn(nq)})
+		}
 	}
 	return c
 }
@@ -52,6 +56,8 @@ type c07Query struct {
 	acks  []string
 	resps []serf.NodeResponse
 	ackClosed, respClosed bool
+	closedByApp           bool
+	sinceClose            map[string]bool // reply payloads injected after the application closed the query
 }
 
 func execC07(r *Run) {
@@ -94,7 +100,7 @@ func execC07(r *Run) {
 		switch s.Op {
 		case "q":
 			qsteps = append(qsteps, s)
-		case "re":
+		case "re", "close":
 			rsteps = append(rsteps, s)
 		}
 	}
@@ -143,6 +149,7 @@ func execC07(r *Run) {
 		}
 	}
 	// ---- phase 2: concurrent reply deliveries racing with the timeouts
+	nrep := 0
 	nrt := int(r.C.P["rtasks"])
 	if nrt < 1 {
 		nrt = 1
@@ -158,13 +165,26 @@ func execC07(r *Run) {
 			for _, s := range per[t] {
 				vsched.YieldAt("reply-start")
 				q := queries[s.J%len(queries)]
+				if s.Op == "close" {
+					if q.qr != nil && !q.closedByApp {
+						q.qr.Close()
+						q.closedByApp = true
+						q.sinceClose = map[string]bool{}
+						r.Fault("closed-by-application")
+						if !q.qr.Finished() {
+							r.Fail("closed-query-not-finished", "C07 close-not-finished", "query %s: Finished() is false right after Close()", q.tag)
+						}
+					}
+					continue
+				}
 				m := &wQueryResponse{LTime: q.ltime, ID: q.id, From: s.T}
 				switch s.S {
 				case "ack":
 					m.Flags = qfAck
 					r.Fault("reply-ack")
 				case "resp":
-					m.Payload = []byte(fmt.Sprintf("%s|%s|%d", q.tag, s.T, s.K))
+					nrep++
+					m.Payload = []byte(fmt.Sprintf("%s|%s|%d", q.tag, s.T, nrep)) // unique per injected reply
 					r.Fault("reply-response")
 				case "wrongid":
 					m.ID = q.id + 7
@@ -174,6 +194,9 @@ func execC07(r *Run) {
 					m.LTime = q.ltime + 1
 					m.Payload = []byte("misrouted")
 					r.Fault("reply-wrong-time")
+				}
+				if q.closedByApp && s.S == "resp" {
+					q.sinceClose[string(m.Payload)] = true
 				}
 				nd.Del.NotifyMsg(wEnc(mtQueryResponse, m))
 			}
@@ -237,6 +260,14 @@ func execC07(r *Run) {
 		}
 		if !q.ack && q.qr.AckCh() != nil {
 			r.Fail("unexpected-ack-stream", "C07 ack-stream", "query %s did not request acks but has an ack stream", q.tag)
+		}
+		if q.closedByApp {
+			// replies that were injected only after Close() must never have come through
+			for _, nr := range q.resps {
+				if q.sinceClose[string(nr.Payload)] {
+					r.Fail("reply-after-close", "C07 after-close", "query %s was closed by the application, yet a response injected afterwards (%q) came through its stream", q.tag, nr.Payload)
+				}
+			}
 		}
 		seenAck := map[string]int{}
 		for _, a := range q.acks {
